@@ -85,6 +85,8 @@ def cases(tier):
         for st in [None] + stages:
             for ps in PATH_STATES:
                 yield dict(prog=prog, stage=st, pstate=ps, tier=tier)
+                # the same with the output given as a relative path (as on the command line: -o out.gro), cwd = output directory
+                yield dict(prog=prog, stage=st, pstate=ps, tier=tier, relative=True)
                 # the error handling around the serialisers must not depend on the exception class
                 if st is not None and ("write" in st[1] or "deferred_open" in st[1] or "citation" in st[1]) and ps == "present":
                     for ft in ("key", "os", "value"):
@@ -189,7 +191,7 @@ def listing(d):
 
 def prepare(d, outname, pstate):
     out = d / "out" / outname
-    out.parent.mkdir()
+    out.parent.mkdir(exist_ok=True)
     if pstate != "absent":
         out.write_text("OLD CONTENT of the output path\n")
     if pstate == "present+backup":
@@ -256,6 +258,22 @@ def complete(prog, path):
     return len(data["nodes"]) == 5
 
 
+@contextlib.contextmanager
+def _cwd_for(case, d):
+    """relative output paths: the working directory is the output directory for the duration of the case"""
+    if not case.get("relative"):
+        yield
+        return
+    import os
+    old = os.getcwd()
+    (d / "out").mkdir(exist_ok=True)
+    os.chdir(d / "out")
+    try:
+        yield
+    finally:
+        os.chdir(old)
+
+
 def run_case(case):
     prog, stage, pstate = case["prog"], case["stage"], case["pstate"]
     viols = []
@@ -264,11 +282,13 @@ def run_case(case):
     def bad(assertion, msg, tags=()):
         viols.append(dict(assertion=assertion, tags=list(tags), message=msg + info, case=case, detail={}))
     H.drain_deferred()
-    with H.tempdir() as d:
+    if case.get("relative"):
+        info += " output path relative"
+    with H.tempdir() as d, _cwd_for(case, d):
         out = prepare(d, EXT[prog], pstate)
         before = listing(d / "out")
         with inject(tuple(stage) if stage else None, case.get("fault", "runtime")):
-            exc = run_prog(prog, d, out, "a")
+            exc = run_prog(prog, d, Path(EXT[prog]) if case.get("relative") else out, "a")
         after = listing(d / "out")
         if stage is None:
             if exc is not None:
@@ -305,7 +325,7 @@ def run_case(case):
                             stats={"faults_injected": 1}, sample=dict(prog=prog, stage=stage, pstate=pstate))
             # a later successful run to another path must not deliver the failed run's output either
             out2 = d / "out" / ("second_" + EXT[prog])
-            exc2 = run_prog(prog, d, out2, "b")
+            exc2 = run_prog(prog, d, Path("second_" + EXT[prog]) if case.get("relative") else out2, "b")
             later = listing(d / "out")
             if exc2 is not None:
                 bad("later-run-unaffected-by-failed-run", f"{type(exc2).__name__}: {exc2}", ["stage:" + stage[1]])
@@ -318,7 +338,7 @@ def run_case(case):
                     tags = ["stage:" + stage[1], "stale-deferred-write"]
                     bad("no-output-touched-on-failure", f"after a later successful run the failed run's path changed: right after the failure {expect} now {later}", tags)
         H.drain_deferred()
-    key = [f"{prog}:{stage}:{pstate}"] if pstate != "absent" else []
+    key = [f"{prog}:{stage}:{pstate}:{bool(case.get('relative'))}"] if pstate != "absent" else []
     return dict(evals=1, keys=key, violations=viols, stats={"faults_injected": int(stage is not None)},
                 sample=dict(prog=prog, stage=stage, pstate=pstate))
 
